@@ -1,8 +1,8 @@
 /-
   Driver/Hist — `hist`: run an edit / configuration history through `Model/Graph` and report, after the
   constructor and after every call, the outcome (ok | exception class), the abstract structure
-  (`Spec/Structure.abs`), the raw registries (so that stale entries are visible), the `WF` verdict with the
-  failing clause names, and which known unsafe pattern (`Spec/Safe`) the call matched in its pre-state.
+  (`Spec/Structure.abs`), the raw registries (so that stale entries are visible) and the `WF` verdict with the
+  failing clause names.
 
   in : {"cmd":"hist","init":{"name":s,"comp":C,"group":s,"rail":s},"ops":[O…]}
        C = {"name":s,"kind":k,"tag":s}
@@ -13,11 +13,10 @@
          | {"op":"set_sys_phases","phases":[[s,v]…]}
          | {"op":"set_comp_phases","name":s,"conf":{"names":[s…]} | {"table":[[s,v]…]} | "bad"}
        (phase values `v` are opaque strings)
-  out: {"init":"ok"|cls,"state":S,"steps":[{"outcome":"ok"|cls,"unsafe":[ids],"safe15":b,"state":S}…]}
+  out: {"init":"ok"|cls,"state":S,"steps":[{"outcome":"ok"|cls,"state":S}…]}
 -/
 import SysLoss.Driver.Wire
 import SysLoss.Spec.Structure
-import SysLoss.Spec.Safe
 
 open Lean
 
@@ -143,9 +142,7 @@ def runSteps (s : S) : List (Op PComp String) → List Json
   | [] => []
   | op :: ops =>
     let r := s.step op
-    Json.mkObj [("outcome", outcomeOut r.2), ("unsafe", jStrs (s.unsafeWhy op)),
-                ("safe", decide (s.Safe op)), ("safe15", decide (s.Safe15 op)),
-                ("state", stateOut r.1)] :: runSteps r.1 ops
+    Json.mkObj [("outcome", outcomeOut r.2), ("state", stateOut r.1)] :: runSteps r.1 ops
 
 end Hist
 
@@ -162,8 +159,7 @@ def cmdHist (j : Json) : Json :=
         match (Sys.init name c g r : Option S) with
         | none => Json.mkObj [("init", "ValueError"), ("steps", Json.arr #[])]
         | some s =>
-          Json.mkObj [("init", "ok"), ("safe_init", decide (Sys.SafeInit c r)),
-                      ("state", stateOut s), ("steps", .arr (runSteps s ops).toArray)]
+          Json.mkObj [("init", "ok"), ("state", stateOut s), ("steps", .arr (runSteps s ops).toArray)]
     | _, _, _, _ => Json.mkObj [("bad-op", "hist: malformed init")]
 
 end SysLoss
